@@ -98,6 +98,12 @@ def root_of(t: T) -> T:
             t = t.args[2]
         elif t.op == "loopout":
             t = t.args[2]
+        elif t.op == "ite":
+            # an object updated in place under a condition is the same object either way
+            a, b = root_of(t.args[1]), root_of(t.args[2])
+            if a is not b:
+                return t
+            t = a
         else:
             return t
 
@@ -317,7 +323,7 @@ def merge_states(a: State, b: State):
     while n < len(a.pc) and n < len(b.pc) and a.pc[n] is b.pc[n]:
         n += 1
     ra, rb = a.pc[n:], b.pc[n:]
-    if ra:
+    if ra and not (rb and len(rb) < len(ra) and len(rb) == 1 and neg(rb[0]).uid in {x.uid for x in ra}):
         cond = conj(ra)
     elif rb:
         cond = neg(conj(rb))
@@ -328,7 +334,10 @@ def merge_states(a: State, b: State):
     nega = {neg(x).uid for x in ra}
     extra_b = [l for l in rb if l.uid not in nega and l.op not in ("inloop", "exc")] if ra else []
     negb = {neg(x).uid for x in rb}
-    extra_a = [l for l in ra if l.uid not in negb and l.op not in ("inloop", "exc")] if (not ra and rb) else []
+    by_b = cond is not conj(ra) if ra else bool(rb)
+    extra_a = [l for l in ra if l.uid not in negb and l.op not in ("inloop", "exc")] if by_b else []
+    if by_b:
+        extra_b = []
     for src_a, src_b, dst, missing in ((a.loc, b.loc, out.loc, True), (a.heap, b.heap, out.heap, False)):
         for k in set(src_a) | set(src_b):
             va, vb = src_a.get(k), src_b.get(k)
@@ -341,8 +350,24 @@ def merge_states(a: State, b: State):
                 vb = mk("undef", k) if missing else mk("attr", k[0], k[1])
             if extra_b and len(ra) == 1:
                 vb = mk("assume", conj(extra_b), vb)
+            if extra_a and len(rb) == 1:
+                va = mk("assume", conj(extra_a), va)
             dst[k] = ite(cond, va, vb)
     return out, cond
+
+
+def _peel(t):
+    while t.op == "assume":
+        t = t.args[1]
+    return t
+
+
+def _is_table(t):
+    return t.op in ("tuple", "list") and 1 <= len(t.args[0]) <= 6 and all(x.op in ("tuple", "list") for x in t.args[0])
+
+
+def _is_simple_comp(t):
+    return t.op == "comp" and t.args[0] == "list" and len(t.args) == 3 and len(t.args[2]) == 1 and not t.args[2][0][1]
 
 
 def _direct_jumps(body) -> bool:
@@ -381,6 +406,12 @@ def _assigned_in(stmts):
                     names.add(b.id)
                 elif isinstance(b, ast.Attribute):
                     attrs.add(b)
+                    if b.attr in ("at", "loc"):
+                        # x.at[k] = v updates x
+                        if isinstance(b.value, ast.Name):
+                            names.add(b.value.id)
+                        elif isinstance(b.value, ast.Attribute):
+                            attrs.add(b.value)
             self.generic_visit(n)
 
         def visit_FunctionDef(self, n):
@@ -849,7 +880,53 @@ class Evaluator:
         return True
 
     def _s_For(self, s, st):
-        it = self._expr(s.iter, st)
+        # `for T in [ELT for V in SRC if C]: BODY`  is  `for V' in SRC: if C': T = ELT' ; BODY`  (V' a fresh name for V)
+        if isinstance(s.iter, (ast.ListComp, ast.GeneratorExp)) and len(s.iter.generators) == 1 and not s.orelse \
+                and not s.iter.generators[0].is_async:
+            g = s.iter.generators[0]
+            fresh = {n.id: f"{n.id}__cv{getattr(s, 'lineno', 0)}" for n in ast.walk(g.target) if isinstance(n, ast.Name)}
+
+            class _Ren(ast.NodeTransformer):
+                def visit_Name(self, n):
+                    return ast.copy_location(ast.Name(fresh[n.id], n.ctx), n) if n.id in fresh else n
+            import copy as _copy
+            ren = lambda x: _Ren().visit(_copy.deepcopy(x))  # noqa: E731
+            bind_t = ast.Assign(targets=[s.target], value=ren(s.iter.elt))
+            inner = [bind_t] + list(s.body)
+            if g.ifs:
+                test = ren(g.ifs[0]) if len(g.ifs) == 1 else ast.BoolOp(op=ast.And(), values=[ren(c) for c in g.ifs])
+                inner = [ast.If(test=test, body=inner, orelse=[])]
+            s2 = ast.For(target=ren(g.target), iter=g.iter, body=inner, orelse=[])
+            for n in ast.walk(s2):
+                if not hasattr(n, "lineno"):
+                    ast.copy_location(n, s)
+            ast.copy_location(s2, s)
+            ast.fix_missing_locations(s2)
+            return self._s_For(s2, st)
+        return self._for_over(s, st, self._expr(s.iter, st))
+
+    def _for_over(self, s, st, it, depth=0):
+        while it.op == "assume":
+            it = it.args[1]
+        # `rows = TABLE if c else [f(x) for x in xs]; for r in rows: BODY` is `if c: for r in TABLE: BODY / else: for x in xs:
+        # r = f(x); BODY`: the loop is evaluated once per alternative of the iterable, under that alternative's condition
+        if it.op == "ite" and depth < 3 and not s.orelse and any(_is_simple_comp(_peel(x)) for x in it.args[1:]) \
+                and any(_is_table(_peel(x)) for x in it.args[1:]):
+            c = it.args[0]
+            out = []
+            for cond, alt in ((c, it.args[1]), (neg(c), it.args[2])):
+                out.extend(self._for_over(s, st.fork(cond), alt, depth + 1))
+            return self._join(out)
+        # a loop over a list built by a one-generator comprehension visits f(x) for each x of the source in order
+        if depth and _is_simple_comp(it) and not s.orelse:
+            src = it.args[2][0][0]
+            el = mk("elem", src)
+            lev = self._emit("loop", s, st, iter=src, elem=el)
+
+            def bind_c(bst, elt=it.args[1]):
+                self._assign(s.target, elt, bst, s, loop_target=True)
+
+            return self._loop(s, st, s.body, s.orelse, el, bind_c, lev)
         # a table-driven loop `for k, v in ((K1, a), (K2, b), (K3, c)): BODY` is BODY for each record in turn: unrolled, so that
         # what flows into v is a, b, c themselves (label provenance, aliasing) and not "some element of a tuple"
         if it.op in ("tuple", "list") and 1 <= len(it.args[0]) <= 6 and all(x.op in ("tuple", "list") for x in it.args[0]) \
@@ -884,6 +961,14 @@ class Evaluator:
             g = s.body[0].test
             t = g.operand if isinstance(g, ast.UnaryOp) and isinstance(g.op, ast.Not) else ast.UnaryOp(op=ast.Not(), operand=g)
             s2 = ast.While(test=ast.copy_location(t, g), body=s.body[1:], orelse=[])
+            ast.copy_location(s2, s)
+            ast.fix_missing_locations(s2)
+            return self._s_While(s2, st)
+        # `while A and B: S`  is  `while A: if B: S else: break`  (B is tested only when A holds, the loop ends when either fails)
+        if isinstance(s.test, ast.BoolOp) and isinstance(s.test.op, ast.And) and len(s.test.values) >= 2 and not s.orelse:
+            rest = s.test.values[1] if len(s.test.values) == 2 else ast.copy_location(ast.BoolOp(op=ast.And(), values=s.test.values[1:]), s.test)
+            inner = ast.If(test=rest, body=s.body, orelse=[ast.copy_location(ast.Break(), s)])
+            s2 = ast.While(test=s.test.values[0], body=[ast.copy_location(inner, s)], orelse=[])
             ast.copy_location(s2, s)
             ast.fix_missing_locations(s2)
             return self._s_While(s2, st)
@@ -984,6 +1069,10 @@ class Evaluator:
             new = mk("upd", old, key, v)
             # write the updated container back to where it lives
             self._writeback(base, new, st)
+            if isinstance(base, ast.Attribute) and base.attr in ("at", "loc") and isinstance(base.value, (ast.Name, ast.Attribute)):
+                # x.at[k] = v / x.loc[k] = v update x itself (by label, as x[k] = v does for a labelled container)
+                under = self._expr(_to_load(base.value), st)
+                self._writeback(base.value, mk("upd", under, key, v), st)
             self._emit("store", stmt, st, tkind="sub", obj=old, key=key, value=v, base_node=base, target_node=tgt)
         elif isinstance(tgt, ast.Starred):
             self._assign(tgt.value, v, st, stmt)
